@@ -51,6 +51,13 @@ def regen(ck):
     bad = ["%s is %r, the model transcribes %r" % (k, c.get(k), v) for k, v in EXPECT_RE.items() if c.get(k) != v]
     ck.obligation("sanitising patterns in the source are the ones the model transcribes", not bad, "; ".join(bad))
     ck.extra["decode_consts"] = c
+    st = info.get("package_state", [])
+    unlisted = [x for x in st if x["kind"] == "other"]
+    ck.extra["package_state"] = {"variables": len(st), "not_parser_regexp_or_function": unlisted}
+    if unlisted:
+        ck.log("package-level variables of writer/utils/unmarshal that are neither parsers, regexps nor function values: %s -- four times as many histories are generated"
+               % [x["name"] for x in unlisted])
+    c["_more_histories"] = bool(unlisted)
     return c
 
 
@@ -125,7 +132,8 @@ def load_jsonl(p):
 
 
 def run_correspondence(ck, consts):
-    henv = {"C03_THRESHOLD": str(consts["THRESHOLD"]), "C03_FLUSH_LIMIT": str(consts["FLUSH_LIMIT"]), "C03_TIER": ck.tier}
+    henv = {"C03_THRESHOLD": str(consts["THRESHOLD"]), "C03_FLUSH_LIMIT": str(consts["FLUSH_LIMIT"]), "C03_TIER": ck.tier,
+            "C03_HISTORY_EVERY": "4" if consts.get("_more_histories") else "16"}
     if not ck.go_build("decode"):
         ck.obligation("harness decode builds against the repository", False, ck.build_out[-1500:])
         return
@@ -146,7 +154,9 @@ def run_correspondence(ck, consts):
         rp = json.load(open(ck.replay))
         if "case" in rp:
             p = os.path.join(ck.work, "replay_in.jsonl")
-            open(p, "w").write(json.dumps(strip(rp["case"])) + "\n")
+            # a step of a history is replayed with the steps before it, in one process
+            lines = rp.get("history") or [rp["case"]]
+            open(p, "w").write("".join(json.dumps(strip(x)) + "\n" for x in lines))
             outp = os.path.join(ck.work, "replay_out.jsonl")
             rc, out = ck.go_run("decode", ["--cases", p, "--out", outp])
             if rc == 0:
@@ -163,6 +173,16 @@ def run_correspondence(ck, consts):
         return
     cases += load_jsonl(outp)
     byid = {c["id"]: c for c in cases}
+    hists = {}
+    for c in cases:
+        if c.get("hist"):
+            hists.setdefault((c["id"] // 1000000, c["hist"]), []).append(c)
+
+    def history_of(c):
+        """the steps of c's history up to and including c (None for a body decoded on its own)"""
+        if not c.get("hist"):
+            return None
+        return [small(x) for x in hists[(c["id"] // 1000000, c["hist"])] if x["step"] <= c["step"]]
     mism, viol, unmod = [], [], []
     from concurrent.futures import ThreadPoolExecutor
     shs = list(shards(cases))
@@ -206,7 +226,9 @@ def run_correspondence(ck, consts):
         for i in fresh_viol:
             c = byid[i]
             got = sum(len(k["ts"]) for k in c["obs"]["chunks"])
-            if c["obs"].get("changed_after_receive"):
+            if c.get("hist") and c["step"] > 1 and not c["obs"]["err"] and not c["obs"].get("changed_after_receive"):
+                sig = "a body decoded after other bodies in the same process gets rows it does not get on its own (state kept between requests)"
+            elif c["obs"].get("changed_after_receive"):
                 sig = "responses already sent were overwritten while the parser went on (columns read at the end of the request, as the inserting consumer does)"
             elif c["obs"]["err"]:
                 sig = "request failed: " + c["obs"]["err"] + " (" + c["obs"].get("errmsg", "")[:80] + ")"
@@ -218,9 +240,12 @@ def run_correspondence(ck, consts):
                 sig = "a row differs from its entry (fingerprint of another label set, timestamp, line, value, ttl or type)"
             groups.setdefault((c["proto"], sig), []).append(c)
         for (proto, sig), cs in sorted(groups.items())[:12]:
-            worst = min(cs, key=lambda c: (c["nrows"], len(json.dumps(c["body"]))))
+            worst = min(cs, key=lambda c: (c.get("step", 0), c["nrows"], len(json.dumps(c["body"]))))
             ck.violation({"property": PID, "kind": "decoded rows are not one faithful row per submitted entry", "signature": sig,
-                          "proto": proto, "class": worst["class"], "case": small(worst), "submitted_entries": worst["nrows"],
+                          "proto": proto, "class": worst["class"], "case": small(worst), "history": history_of(worst),
+                          "history_note": ("step %d of a history: the bodies of 'history' decoded one after another in one process" % worst["step"]) if worst.get("hist") else
+                                          "body decoded in a process that had decoded the earlier generated cases; if it does not reproduce alone, run: harness decode --seed %s --n %d" % (ck.seed, worst["id"] + 1),
+                          "submitted_entries": worst["nrows"],
                           "observed_rows": sum(len(k["ts"]) for k in worst["obs"]["chunks"]),
                           "observed_column_lengths": [[len(k[col]) for col in ("ts", "fp", "msg", "val", "ttl", "type")] for k in worst["obs"]["chunks"]][:5],
                           "cases_with_this_signature": len(cs),
@@ -254,13 +279,19 @@ def run_correspondence(ck, consts):
     ck.coverage["evaluations"] += len(cases)
     ck.coverage["distinct_nontrivial"] += len(distinct)
     ck.coverage["rule"] += ("bodies for the seven parsers (Loki JSON both layouts / protobuf, remote write, Influx, Datadog logs/metrics, OTLP logs), "
-                            "serialised with random key order, timestamp syntax and layout; non-trivial = at least 2 submitted entries; distinct by body content. ")
+                            "serialised with random key order, timestamp syntax and layout; every 16th index starts a history of 2..5 bodies over a growing pool of streams "
+                            "(same or mixed protocols, known streams in new orders, unseen streams inserted after known ones, announcement cache shared by half of them), all bodies of a run decoded in ONE process; non-trivial = at least 2 submitted entries; distinct by body content. ")
     ck.extra["input_distribution"] = hist
     ck.extra["fingerprint_cache_kinds"] = caches
     ck.extra["bodies_with_more_than_one_chunk"] = crossed_mib
     ck.extra["remote_write_bodies_with_1000_points_or_more"] = crossed_1000
     ck.extra["parser_errors_by_class"] = errs
     ck.extra["unmodelled_bodies"] = len(unmod)
+    nh = len(hists)
+    ck.extra["histories"] = {"count": nh, "steps": sum(len(v) for v in hists.values()),
+                             "with_shared_announcement_cache": sum(1 for v in hists.values() if v[0].get("cache") == "shared"),
+                             "mixed_protocols": sum(1 for v in hists.values() if len({x["proto"] for x in v}) > 1)}
+    ck.obligation("histories (2..5 bodies decoded one after another in one process) are part of the run: %d histories" % nh, nh > 0)
     ck.obligation("both flush thresholds are crossed by generated bodies (%d bytes: %d bodies, %d points: %d bodies)" % (consts["THRESHOLD"], crossed_mib, consts["FLUSH_LIMIT"], crossed_1000),
                   crossed_mib > 0 and crossed_1000 > 0)
     ck.add_samples([small(c) for c in cases if c["nrows"] >= 2 and case_weight(c) < 4000][:3])
@@ -271,6 +302,7 @@ def run(ck):
         "C03: the wire decoders (jx, protobuf, the telegraf Influx parser, the Datadog tag regexp, text/scanner for Loki label strings) are crossed by the correspondence only; the harness's serialisers are trusted",
         "C03: fingerprintLabels and len(encodeLabels) are oracles of the model (theorems hold for every such function); per case they are the table read off the implementation's own time_series rows, label lists compared as multisets (permutation invariance of the fingerprint is C04's theorem)",
         "C03: the fingerprint cache is abstract in the theorems; the harness runs with the never-hit cache of a clustered deployment or a per-request set cache; Go map iteration order (Influx fields, OTLP attributes) is not modelled: rows of one Influx line are compared as a multiset",
+        "C03: state kept by the process between requests is looked for by decoding all bodies of a run (and explicit histories) in one process and checking every body against the model of that body alone; package-level variables of writer/utils/unmarshal are listed in the evidence (package_state)",
         "C03: time.Now() for missing Datadog timestamps and Influx 'message' lines with further fields (logfmt in map order) are outside the model (not generated)",
     ]
     consts = regen(ck)
